@@ -97,7 +97,7 @@ func GenCfg(src *choice.Src, o Opts) *Cfg {
 		c.Meta.Functions = append(c.Meta.Functions, KV{g.fnName, g.fx("Fn")})
 	}
 	if src.Chance("version", 1, 6) {
-		c.Version = sp(choice.Pick(src, "versionv", []string{"0.4.0", "0.4.7", "1.0.0", "0.3.0", "1.2.9", "1.3.0", "2.1.0"}))
+		c.Version = sp(choice.Pick(src, "versionv", []string{"0.4.0", "0.4.7", "1.0.0", "0.3.0", "1.2.9", "1.3.0", "2.1.0", "1", "0", "0.4"}))
 	}
 
 	// ---- parameters (DAG by creation order; names shuffled against that order)
